@@ -121,6 +121,22 @@ def build(tier):
     out.append(gcase({"family": "generic-concrete", "concrete": ["T", "U"], "split": True}, td, [], 2, [("i32", "St")], concrete_names=(False, False)))
     td = TypeDef("G", "struct", "named", [Field("T", "t"), Field("Vec<U>", "u"), Field("Option<V>", "v")], attrs=["#[ts(concrete(T = i32))]", "#[ts(concrete(V = St))]"], generics=["T", "U", "V"], derives=TS_ONLY, vals=False)
     out.append(gcase({"family": "generic-concrete", "concrete": ["T", "V"], "split": True}, td, [("U", None)], 3, [("i32", a, "St") for a in ARGS[:6]], concrete_names=(False, True, False)))
+    # a parameter that has a default AND is concretised
+    td = TypeDef("G", "struct", "named", [Field("T", "t"), Field("Vec<T>", "l")], attrs=["#[ts(concrete(T = i32))]"], generics=["T"], generics_decl="<T = String>", generics_use="<T>", derives=TS_ONLY, vals=False)
+    out.append(gcase({"family": "generic-concrete", "concrete": ["T"], "with_default": True}, td, [], 1, [("i32",)], concrete_names=(False,)))
+    td = TypeDef("G", "struct", "named", [Field("T", "t"), Field("U", "u"), Field("V", "v")], attrs=["#[ts(concrete(U = St))]"], generics=["T", "U", "V"], generics_decl="<T, U = String, V = i32>", generics_use="<T, U, V>", derives=TS_ONLY, vals=False)
+    out.append(gcase({"family": "generic-concrete", "concrete": ["U"], "with_default": True}, td, [("T", None), ("V", "number")], 3, [(a, "St", b) for a in ARGS[:4] for b in ARGS[:3]], concrete_names=(True, False, True)))
+    # const parameters before / between type parameters
+    tdo = TypeDef("G", "struct", "named", [Field("[T; N]", "arr"), Field("T", "t")], generics=["T"], generics_decl="<const N: usize, T>", generics_use="<N, T>", derives=TS_ONLY, vals=False)
+    out.append(gcase({"family": "generic-const-order", "order": "const-first"}, tdo, [("T", None)], 1, [(a,) for a in ARGS[:6]], fixed_prefix="2"))
+    tdo2 = TypeDef("G", "enum", variants=[Variant("A", "tuple", [Field("[T; N]")]), Variant("B", "named", [Field("U", "u"), Field("&'a str", "s")])], generics=["T", "U"], generics_decl="<'a, T, const N: usize, U>", generics_use="<'a, T, N, U>", derives=TS_ONLY, vals=False)
+    body = []
+    out.append(Case({"family": "generic-const-order", "order": "const-between"}, [tdo2],
+                    ['ctx.check_generic_decl("G", &|| <G<\'static, i32, 2, St> as TS>::decl(), &[("T", None), ("U", None)]);',
+                     'ctx.check_all_same("declaration-depends-on-type-arguments", &|| vec![("a".to_string(), <G<\'static, i32, 2, St> as TS>::decl()), ("b".to_string(), <G<\'static, St, 2, En> as TS>::decl())]);',
+                     'ctx.check_same_string("instantiation-name-is-not-ident-applied-to-argument-names", &|| <G<\'static, i32, 2, St> as TS>::name(), &|| "G<number, St>".to_string());',
+                     'ctx.check_equiv("instantiated-generic-declaration-differs-from-concrete-declaration", &|| <G<\'static, i32, 2, St> as TS>::name(), &|| <G<\'static, i32, 2, St> as TS>::inline());'],
+                    decl_types=["G<'static, i32, 2, St>"]))
     # const parameters with a default, lifetimes with bounds
     tdc = TypeDef("G", "struct", "named", [Field("[T; N]", "arr"), Field("T", "t")], generics=["T"], generics_decl="<T, const N: usize = 2>", generics_use="<T, N>", derives=TS_ONLY, vals=False)
     out.append(gcase({"family": "generic-const-default"}, tdc, [("T", None)], 1, [(a,) for a in ARGS[:6]], fixed_suffix="3"))
